@@ -14,7 +14,7 @@ ASSUMPTIONS = ["time items strictly increasing (unit / constant step d>0 / arbit
                "survival table entries in [0,1]; diagonal entries >= 1/20 for the stock-driven classes",
                "scipy.linalg.solve_triangular satisfies its documented contract (lapack solver); np.allclose only guards a warning (both outcomes explored)"]
 OUTSIDE = ["more than n time steps (see bounds)", "IEEE rounding", "LAPACK internals", "scipy distribution kernels (symbolic tier uses a free table; linear tier uses their float output as exact rationals)"]
-VARIANTS = 'same stock object computed before; every array handed over as a transposed view (two label dimensions); a second model on another grid; first-step perturbation of the balance; multi-point rule and inflow_at=end with the shipped classes'
+VARIANTS = 'same stock object computed before; every array handed over as a transposed view (two label dimensions); a second model on another grid; first-step perturbation of the balance; multi-point rule and inflow_at=end with the shipped classes; a label dimension lettered c and as long as the time dimension'
 BOUNDS = {
     "quick": dict(symbolic_tier="n in {3,4}, one extra dimension of length 2 (and none), grids unit/const/uneven, 4 stock classes",
                   real_class_tier="n in {3,4}, the five shipped lifetime classes with symbolic scalar parameters (scipy kernels as uninterpreted functions), symbolic grid"),
@@ -52,6 +52,8 @@ def configs(tier, seed):
     for kind in KINDS:
         for grid in ("uneven", "const"):
             out.append(dict(h="conserve", op=kind + "again", key=f"conserve/{kind}/grid={grid}/n=3/extra=r2/computed_before", kind=kind, grid=grid, n=3, extra={"r": 2}, again=True))
+        # a label dimension lettered c (as in "cohort") and as long as the time dimension
+        out.append(dict(h="conserve", op=kind + "c", key=f"conserve/{kind}/grid=uneven/n=3/extra=c3", kind=kind, grid="uneven", n=3, extra={"c": 3}))
         for extra in ({"r": 2, "p": 2}, {"r": 2, "p": 3}):
             ek = "x".join(f"{l}{k}" for l, k in extra.items())
             out.append(dict(h="conserve", op=kind + "layout", key=f"conserve/{kind}/grid=const/n=3/extra={ek}/arrays=transposed_views", kind=kind, grid="const", n=3, extra=extra, prealloc=True))
